@@ -656,3 +656,361 @@ TWINS = [
         (M, _SORT, "                rules.sort(key=operator.methodcaller(\"build_compare_key\"))\n"),
     ]},
 ]
+
+
+# ---- stress round (fresh ordinary-style refactorings, 2026-10-03): every shape that tripped a rule + regression anchors
+_STRESS = {
+    'alias-query-suffix-in-a-local-by-conditional-expression': [
+        ('routing/map.py',
+         '        url = self.build(\n            endpoint, values, method, append_unknown=False, force_external=True\n        )\n        if query_args:\n            url += f"?{self.encode_query_args(query_args)}"\n        assert url != path, "detected invalid alias setting. No canonical URL found"\n        return url\n',
+         '        url = self.build(\n            endpoint, values, method, append_unknown=False, force_external=True\n        )\n        suffix = f"?{self.encode_query_args(query_args)}" if query_args else ""\n        url = url + suffix\n        assert url != path, "detected invalid alias setting. No canonical URL found"\n        return url\n'),
+    ],
+    'both-walks-in-one-try-handler-reads-the-current-path': [
+        ('routing/matcher.py',
+         '        try:\n            rv = _match(self._root, [domain, *path.split("/")], [])\n        except SlashRequired:\n            raise RequestPath(f"{path}/") from None\n\n        if self.merge_slashes and rv is None:\n            # Try to match again, but with slashes merged\n            path = re.sub("/{2,}?", "/", path)\n            try:\n                rv = _match(self._root, [domain, *path.split("/")], [])\n            except SlashRequired:\n                raise RequestPath(f"{path}/") from None\n            if rv is None or rv[0].merge_slashes is False:\n                raise NoMatch(have_match_for, websocket_mismatch)\n            else:\n                raise RequestPath(f"{path}")\n        elif rv is not None:\n',
+         '        try:\n            rv = _match(self._root, [domain, *path.split("/")], [])\n\n            if self.merge_slashes and rv is None:\n                # Try to match again, but with slashes merged\n                path = re.sub("/{2,}?", "/", path)\n                rv = _match(self._root, [domain, *path.split("/")], [])\n                if rv is None or rv[0].merge_slashes is False:\n                    raise NoMatch(have_match_for, websocket_mismatch)\n                raise RequestPath(f"{path}")\n        except SlashRequired:\n            raise RequestPath(f"{path}/") from None\n\n        if rv is not None:\n'),
+    ],
+    'slash-target-by-str-format-parts-in-a-local': [
+        ('routing/matcher.py',
+         '        try:\n            rv = _match(self._root, [domain, *path.split("/")], [])\n        except SlashRequired:\n            raise RequestPath(f"{path}/") from None\n\n        if self.merge_slashes and rv is None:\n',
+         '        parts = [domain] + path.split("/")\n        try:\n            rv = _match(self._root, parts, [])\n        except SlashRequired:\n            raise RequestPath("{}/".format(path)) from None\n\n        if self.merge_slashes and rv is None:\n'),
+    ],
+    'match-post-processing-in-a-nested-helper-returning-the-pair': [
+        ('routing/matcher.py',
+         '            rule, values = rv\n\n            result = {}\n            for name, value in zip(rule._converters.keys(), values):\n                try:\n                    value = rule._converters[name].to_python(value)\n                except ValidationError:\n                    raise NoMatch(have_match_for, websocket_mismatch) from None\n                result[str(name)] = value\n            if rule.defaults:\n                result.update(rule.defaults)\n\n            if rule.alias and rule.map.redirect_defaults:\n                raise RequestAliasRedirect(result, rule.endpoint)\n\n            return rule, result\n',
+         '            return _finish(*rv)\n'),
+        ('routing/matcher.py',
+         '        try:\n            rv = _match(self._root, [domain, *path.split("/")], [])\n        except SlashRequired:\n            raise RequestPath(f"{path}/") from None\n\n        if self.merge_slashes and rv is None:\n',
+         '        def _finish(\n            rule: Rule, values: list[str]\n        ) -> tuple[Rule, t.MutableMapping[str, t.Any]]:\n            result = {}\n            for name, value in zip(rule._converters.keys(), values):\n                try:\n                    value = rule._converters[name].to_python(value)\n                except ValidationError:\n                    raise NoMatch(have_match_for, websocket_mismatch) from None\n                result[str(name)] = value\n            if rule.defaults:\n                result.update(rule.defaults)\n\n            if rule.alias and rule.map.redirect_defaults:\n                raise RequestAliasRedirect(result, rule.endpoint)\n\n            return rule, result\n\n        try:\n            rv = _match(self._root, [domain, *path.split("/")], [])\n        except SlashRequired:\n            raise RequestPath(f"{path}/") from None\n\n        if self.merge_slashes and rv is None:\n'),
+    ],
+    'alias-query-appended-with-str-join': [
+        ('routing/map.py',
+         '        url = self.build(\n            endpoint, values, method, append_unknown=False, force_external=True\n        )\n        if query_args:\n            url += f"?{self.encode_query_args(query_args)}"\n        assert url != path, "detected invalid alias setting. No canonical URL found"\n        return url\n',
+         '        url = self.build(\n            endpoint, values, method, append_unknown=False, force_external=True\n        )\n        if query_args:\n            query_string = self.encode_query_args(query_args)\n            url = "?".join((url, query_string))\n        assert url != path, "detected invalid alias setting. No canonical URL found"\n        return url\n'),
+    ],
+    'scheme-pair-chosen-by-websocket-force-external-by-or': [
+        ('routing/map.py',
+         '        if url_scheme is None:\n            url_scheme = self.url_scheme\n\n        # Always build WebSocket routes with the scheme (browsers\n        # require full URLs). If bound to a WebSocket, ensure that HTTP\n        # routes are built with an HTTP scheme.\n        secure = url_scheme in {"https", "wss"}\n\n        if websocket:\n            force_external = True\n            url_scheme = "wss" if secure else "ws"\n        elif url_scheme:\n            url_scheme = "https" if secure else "http"\n',
+         '        if url_scheme is None:\n            url_scheme = self.url_scheme\n\n        # Always build WebSocket routes with the scheme (browsers\n        # require full URLs). If bound to a WebSocket, ensure that HTTP\n        # routes are built with an HTTP scheme.\n        secure = url_scheme in {"https", "wss"}\n        force_external = force_external or websocket\n\n        if websocket or url_scheme:\n            plain, encrypted = ("ws", "wss") if websocket else ("http", "https")\n            url_scheme = encrypted if secure else plain\n'),
+    ],
+    'scheme-prefix-by-str-format': [
+        ('routing/map.py',
+         '        scheme = f"{url_scheme}:" if url_scheme else ""\n        return f"{scheme}//{host}{self.script_name[:-1]}/{path.lstrip(\'/\')}"\n',
+         '        scheme = "{}:".format(url_scheme) if url_scheme else ""\n        return f"{scheme}//{host}{self.script_name[:-1]}/{path.lstrip(\'/\')}"\n'),
+    ],
+    'rule-list-sorted-by-a-module-level-helper': [
+        ('routing/map.py',
+         'class Map:\n',
+         'def _sort_for_building(rules: list[Rule]) -> None:\n    rules.sort(key=lambda rule: rule.build_compare_key())\n\n\nclass Map:\n'),
+        ('routing/map.py',
+         '            for rules in self._rules_by_endpoint.values():\n                rules.sort(key=lambda x: x.build_compare_key())\n',
+         '            for rules in self._rules_by_endpoint.values():\n                _sort_for_building(rules)\n'),
+    ],
+    'defaults-provider-all-over-a-list': [
+        ('routing/rules.py',
+         '        return bool(\n            not self.build_only\n            and self.defaults\n            and self.endpoint == rule.endpoint\n            and self != rule\n            and self.arguments == rule.arguments\n        )\n',
+         '        return all(\n            [\n                not self.build_only,\n                self.defaults,\n                self.endpoint == rule.endpoint,\n                self != rule,\n                self.arguments == rule.arguments,\n            ]\n        )\n'),
+    ],
+    'defaults-provider-signature-test-in-a-module-level-helper': [
+        ('routing/rules.py',
+         '        return bool(\n            not self.build_only\n            and self.defaults\n            and self.endpoint == rule.endpoint\n            and self != rule\n            and self.arguments == rule.arguments\n        )\n',
+         '        if self.build_only or not self.defaults:\n            return False\n\n        return self != rule and _same_signature(self, rule)\n'),
+        ('routing/rules.py',
+         'class Rule(RuleFactory):\n',
+         'def _same_signature(first: Rule, second: Rule) -> bool:\n    """Both rules lead to the same endpoint with the same argument names."""\n    return first.endpoint == second.endpoint and first.arguments == second.arguments\n\n\nclass Rule(RuleFactory):\n'),
+    ],
+    'build-key-alias-rank-by-tuple-index': [
+        ('routing/rules.py',
+         '        return (1 if self.alias else 0, -len(self.arguments), -len(self.defaults or ()))\n',
+         '        defaults = self.defaults if self.defaults is not None else {}\n        return ((0, 1)[bool(self.alias)], -len(self.arguments), -len(defaults))\n'),
+    ],
+    'build-key-sizes-negated-by-a-starred-generator': [
+        ('routing/rules.py',
+         '        return (1 if self.alias else 0, -len(self.arguments), -len(self.defaults or ()))\n',
+         '        sizes = (len(self.arguments), len(self.defaults or ()))\n        return (1 if self.alias else 0, *(-size for size in sizes))\n'),
+    ],
+    'both-walks-through-a-catching-nested-helper-segments-in-a-local': [
+        ('routing/matcher.py',
+         '        try:\n            rv = _match(self._root, [domain, *path.split("/")], [])\n        except SlashRequired:\n            raise RequestPath(f"{path}/") from None\n\n        if self.merge_slashes and rv is None:\n            # Try to match again, but with slashes merged\n            path = re.sub("/{2,}?", "/", path)\n            try:\n                rv = _match(self._root, [domain, *path.split("/")], [])\n            except SlashRequired:\n                raise RequestPath(f"{path}/") from None\n            if rv is None or rv[0].merge_slashes is False:\n                raise NoMatch(have_match_for, websocket_mismatch)\n            else:\n                raise RequestPath(f"{path}")\n        elif rv is not None:\n            rule, values = rv\n\n            result = {}\n            for name, value in zip(rule._converters.keys(), values):\n                try:\n                    value = rule._converters[name].to_python(value)\n                except ValidationError:\n                    raise NoMatch(have_match_for, websocket_mismatch) from None\n                result[str(name)] = value\n            if rule.defaults:\n                result.update(rule.defaults)\n\n            if rule.alias and rule.map.redirect_defaults:\n                raise RequestAliasRedirect(result, rule.endpoint)\n\n            return rule, result\n\n        raise NoMatch(have_match_for, websocket_mismatch)\n',
+         '        def _walk(request_path: str) -> tuple[Rule, list[str]] | None:\n            segments = [domain, *request_path.split("/")]\n            try:\n                return _match(self._root, segments, [])\n            except SlashRequired:\n                raise RequestPath(f"{request_path}/") from None\n\n        rv = _walk(path)\n\n        if self.merge_slashes and rv is None:\n            # Try to match again, but with slashes merged\n            path = re.sub("/{2,}?", "/", path)\n            rv = _walk(path)\n            if rv is None or rv[0].merge_slashes is False:\n                raise NoMatch(have_match_for, websocket_mismatch)\n            else:\n                raise RequestPath(f"{path}")\n        elif rv is not None:\n            rule, values = rv\n\n            result = {}\n            for name, value in zip(rule._converters.keys(), values):\n                try:\n                    value = rule._converters[name].to_python(value)\n                except ValidationError:\n                    raise NoMatch(have_match_for, websocket_mismatch) from None\n                result[str(name)] = value\n            if rule.defaults:\n                result.update(rule.defaults)\n\n            if rule.alias and rule.map.redirect_defaults:\n                raise RequestAliasRedirect(result, rule.endpoint)\n\n            return rule, result\n\n        raise NoMatch(have_match_for, websocket_mismatch)\n'),
+    ],
+    'matcher-tail-guard-clauses': [
+        ('routing/matcher.py',
+         '        if self.merge_slashes and rv is None:\n            # Try to match again, but with slashes merged\n            path = re.sub("/{2,}?", "/", path)\n            try:\n                rv = _match(self._root, [domain, *path.split("/")], [])\n            except SlashRequired:\n                raise RequestPath(f"{path}/") from None\n            if rv is None or rv[0].merge_slashes is False:\n                raise NoMatch(have_match_for, websocket_mismatch)\n            else:\n                raise RequestPath(f"{path}")\n        elif rv is not None:\n            rule, values = rv\n\n            result = {}\n            for name, value in zip(rule._converters.keys(), values):\n                try:\n                    value = rule._converters[name].to_python(value)\n                except ValidationError:\n                    raise NoMatch(have_match_for, websocket_mismatch) from None\n                result[str(name)] = value\n            if rule.defaults:\n                result.update(rule.defaults)\n\n            if rule.alias and rule.map.redirect_defaults:\n                raise RequestAliasRedirect(result, rule.endpoint)\n\n            return rule, result\n\n        raise NoMatch(have_match_for, websocket_mismatch)\n',
+         '        if rv is None:\n            if not self.merge_slashes:\n                raise NoMatch(have_match_for, websocket_mismatch)\n\n            # Try to match again, but with slashes merged\n            path = re.sub("/{2,}?", "/", path)\n            try:\n                rv = _match(self._root, [domain, *path.split("/")], [])\n            except SlashRequired:\n                raise RequestPath(f"{path}/") from None\n            if rv is None or rv[0].merge_slashes is False:\n                raise NoMatch(have_match_for, websocket_mismatch)\n            raise RequestPath(f"{path}")\n\n        rule, values = rv\n\n        result = {}\n        for name, value in zip(rule._converters.keys(), values):\n            try:\n                value = rule._converters[name].to_python(value)\n            except ValidationError:\n                raise NoMatch(have_match_for, websocket_mismatch) from None\n            result[str(name)] = value\n        if rule.defaults:\n            result.update(rule.defaults)\n\n        if rule.alias and rule.map.redirect_defaults:\n            raise RequestAliasRedirect(result, rule.endpoint)\n\n        return rule, result\n'),
+    ],
+    'converted-values-from-a-static-helper-of-the-matcher': [
+        ('routing/matcher.py',
+         '            result = {}\n            for name, value in zip(rule._converters.keys(), values):\n                try:\n                    value = rule._converters[name].to_python(value)\n                except ValidationError:\n                    raise NoMatch(have_match_for, websocket_mismatch) from None\n                result[str(name)] = value\n            if rule.defaults:\n                result.update(rule.defaults)\n\n            if rule.alias and rule.map.redirect_defaults:\n                raise RequestAliasRedirect(result, rule.endpoint)\n\n            return rule, result\n',
+         '            result = self._convert_values(rule, values)\n            if result is None:\n                raise NoMatch(have_match_for, websocket_mismatch) from None\n\n            if rule.alias and rule.map.redirect_defaults:\n                raise RequestAliasRedirect(result, rule.endpoint)\n\n            return rule, result\n'),
+        ('routing/matcher.py',
+         '    def match(\n        self, domain: str, path: str, method: str, websocket: bool\n    ) -> tuple[Rule, t.MutableMapping[str, t.Any]]:\n',
+         '    @staticmethod\n    def _convert_values(\n        rule: Rule, values: list[str]\n    ) -> t.MutableMapping[str, t.Any] | None:\n        converted: dict[str, t.Any] = {}\n        for name, value in zip(rule._converters.keys(), values):\n            try:\n                converted[str(name)] = rule._converters[name].to_python(value)\n            except ValidationError:\n                return None\n        if rule.defaults:\n            converted.update(rule.defaults)\n        return converted\n\n    def match(\n        self, domain: str, path: str, method: str, websocket: bool\n    ) -> tuple[Rule, t.MutableMapping[str, t.Any]]:\n'),
+    ],
+    'host-guard-clauses-host-matching-flag-in-a-local': [
+        ('routing/map.py',
+         '        if self.map.host_matching:\n            if domain_part is None:\n                return self.server_name\n\n            return domain_part\n\n        if domain_part is None:\n            subdomain = self.subdomain\n        else:\n            subdomain = domain_part\n\n        if subdomain:\n            return f"{subdomain}.{self.server_name}"\n        else:\n            return self.server_name\n',
+         '        host_matching = self.map.host_matching\n\n        if host_matching and domain_part is not None:\n            return domain_part\n\n        if host_matching:\n            return self.server_name\n\n        subdomain = domain_part if domain_part is not None else self.subdomain\n\n        if not subdomain:\n            return self.server_name\n\n        return f"{subdomain}.{self.server_name}"\n'),
+    ],
+    'effective-scheme-in-a-private-method': [
+        ('routing/map.py',
+         '        domain_part, path, websocket = rv\n        host = self.get_host(domain_part)\n\n        if url_scheme is None:\n            url_scheme = self.url_scheme\n\n        # Always build WebSocket routes with the scheme (browsers\n        # require full URLs). If bound to a WebSocket, ensure that HTTP\n        # routes are built with an HTTP scheme.\n        secure = url_scheme in {"https", "wss"}\n\n        if websocket:\n            force_external = True\n            url_scheme = "wss" if secure else "ws"\n        elif url_scheme:\n            url_scheme = "https" if secure else "http"\n\n        # shortcut this.\n        if not force_external and (\n            (self.map.host_matching and host == self.server_name)\n            or (not self.map.host_matching and domain_part == self.subdomain)\n        ):\n            return f"{self.script_name.rstrip(\'/\')}/{path.lstrip(\'/\')}"\n\n        scheme = f"{url_scheme}:" if url_scheme else ""\n        return f"{scheme}//{host}{self.script_name[:-1]}/{path.lstrip(\'/\')}"\n',
+         '        domain_part, path, websocket = rv\n        host = self.get_host(domain_part)\n\n        url_scheme = self._effective_scheme(url_scheme, websocket)\n        if websocket:\n            force_external = True\n\n        # shortcut this.\n        if not force_external and (\n            (self.map.host_matching and host == self.server_name)\n            or (not self.map.host_matching and domain_part == self.subdomain)\n        ):\n            return f"{self.script_name.rstrip(\'/\')}/{path.lstrip(\'/\')}"\n\n        scheme = f"{url_scheme}:" if url_scheme else ""\n        return f"{scheme}//{host}{self.script_name[:-1]}/{path.lstrip(\'/\')}"\n\n    def _effective_scheme(self, url_scheme: str | None, websocket: bool) -> str | None:\n        if url_scheme is None:\n            url_scheme = self.url_scheme\n\n        # Always build WebSocket routes with the scheme (browsers\n        # require full URLs). If bound to a WebSocket, ensure that HTTP\n        # routes are built with an HTTP scheme.\n        secure = url_scheme in {"https", "wss"}\n\n        if websocket:\n            return "wss" if secure else "ws"\n\n        if url_scheme:\n            return "https" if secure else "http"\n\n        return url_scheme\n'),
+    ],
+    'defaults-provider-found-with-takewhile-and-next': [
+        ('routing/map.py',
+         'from threading import Lock\n',
+         'from itertools import takewhile\nfrom threading import Lock\n'),
+        ('routing/map.py',
+         '        for r in self.map._rules_by_endpoint[rule.endpoint]:\n            # every rule that comes after this one, including ourself\n            # has a lower priority for the defaults.  We order the ones\n            # with the highest priority up for building.\n            if r is rule:\n                break\n            if r.provides_defaults_for(rule) and r.suitable_for(values, method):\n                values.update(r.defaults)  # type: ignore\n                domain_part, path = r.build(values)  # type: ignore\n                return self.make_redirect_url(path, query_args, domain_part=domain_part)\n        return None\n',
+         '        # every rule that comes after this one, including ourself\n        # has a lower priority for the defaults.  We order the ones\n        # with the highest priority up for building.\n        higher = takewhile(\n            lambda r: r is not rule, self.map._rules_by_endpoint[rule.endpoint]\n        )\n        provider = next(\n            (\n                r\n                for r in higher\n                if r.provides_defaults_for(rule) and r.suitable_for(values, method)\n            ),\n            None,\n        )\n        if provider is None:\n            return None\n\n        values.update(provider.defaults)  # type: ignore\n        domain_part, path = provider.build(values)  # type: ignore\n        return self.make_redirect_url(path, query_args, domain_part=domain_part)\n'),
+    ],
+    'defaults-provider-loop-for-else-redirect-built-after-the-loop': [
+        ('routing/map.py',
+         '            if r is rule:\n                break\n            if r.provides_defaults_for(rule) and r.suitable_for(values, method):\n                values.update(r.defaults)  # type: ignore\n                domain_part, path = r.build(values)  # type: ignore\n                return self.make_redirect_url(path, query_args, domain_part=domain_part)\n        return None\n',
+         '            if r is rule:\n                return None\n            if r.provides_defaults_for(rule) and r.suitable_for(values, method):\n                break\n        else:\n            return None\n\n        values.update(r.defaults)  # type: ignore\n        domain_part, path = r.build(values)  # type: ignore\n        return self.make_redirect_url(path, query_args, domain_part=domain_part)\n'),
+    ],
+    'defaults-provider-property-and-method-helper': [
+        ('routing/rules.py',
+         '        return bool(\n            not self.build_only\n            and self.defaults\n            and self.endpoint == rule.endpoint\n            and self != rule\n            and self.arguments == rule.arguments\n        )\n',
+         '        return self._can_provide_defaults and self._is_variant_of(rule)\n\n    @property\n    def _can_provide_defaults(self) -> bool:\n        return not self.build_only and bool(self.defaults)\n\n    def _is_variant_of(self, other: Rule) -> bool:\n        if self == other:\n            return False\n\n        return self.endpoint == other.endpoint and self.arguments == other.arguments\n'),
+    ],
+}
+TWINS += [{"name": k, "edits": v} for k, v in _STRESS.items()]
+
+
+def _stress_mutant(twin: str, old: str, new: str) -> list:
+    """the refactored shape `twin` with one fragment of its new text replaced (the defect in that shape)."""
+    hits = sum(e[2].count(old) for e in _STRESS[twin])
+    assert hits == 1, (twin, old, hits)
+    return [(rel, o, n.replace(old, new)) for rel, o, n in _STRESS[twin]]
+
+
+MUTANTS += [
+    {"name": "stress-alias-query-suffix-local-encodes-the-bound-query", "expect": "R12.3", "edits": _stress_mutant(
+        "alias-query-suffix-in-a-local-by-conditional-expression", "self.encode_query_args(query_args)}\" if query_args", "self.encode_query_args(self.query_args or {})}\" if query_args")},
+    {"name": "stress-one-try-handler-redirects-to-the-path-saved-before-merging", "expect": "R12.6", "edits": _stress_mutant(
+        "both-walks-in-one-try-handler-reads-the-current-path", "            raise RequestPath(f\"{path}/\") from None\n\n        if rv is not None:", "            raise RequestPath(f\"{requested}/\") from None\n\n        if rv is not None:")
+        + [(T, "        have_match_for = set()\n", "        have_match_for = set()\n        requested = path\n")]},
+    {"name": "stress-format-target-names-the-merged-path", "expect": "R12.6", "edits": _stress_mutant(
+        "slash-target-by-str-format-parts-in-a-local", "        parts = [domain] + path.split(\"/\")\n", "        parts = [domain] + path.split(\"/\")\n        path = re.sub(\"/{2,}?\", \"/\", path)\n")},
+    {"name": "stress-finish-helper-raises-the-alias-signal-before-the-defaults", "expect": "R12.7", "edits": _stress_mutant(
+        "match-post-processing-in-a-nested-helper-returning-the-pair",
+        "            if rule.defaults:\n                result.update(rule.defaults)\n\n            if rule.alias and rule.map.redirect_defaults:\n                raise RequestAliasRedirect(result, rule.endpoint)\n",
+        "            if rule.alias and rule.map.redirect_defaults:\n                raise RequestAliasRedirect(result, rule.endpoint)\n\n            if rule.defaults:\n                result.update(rule.defaults)\n")},
+    {"name": "stress-join-appends-the-bound-query", "expect": "R12.3", "edits": _stress_mutant(
+        "alias-query-appended-with-str-join", "query_string = self.encode_query_args(query_args)", "query_string = self.encode_query_args(self.query_args or {})")},
+    {"name": "stress-websocket-scheme-pair-swapped", "expect": "R12.8", "edits": _stress_mutant(
+        "scheme-pair-chosen-by-websocket-force-external-by-or", "(\"ws\", \"wss\") if websocket", "(\"wss\", \"ws\") if websocket")},
+    {"name": "stress-format-prefix-appends-an-s", "expect": "R12.8", "edits": _stress_mutant(
+        "scheme-prefix-by-str-format", "\"{}:\".format(url_scheme)", "\"{}s:\".format(url_scheme)")},
+    {"name": "stress-module-level-sort-helper-sorts-in-reverse", "expect": "R12.11", "edits": _stress_mutant(
+        "rule-list-sorted-by-a-module-level-helper", "rules.sort(key=lambda rule: rule.build_compare_key())", "rules.sort(key=lambda rule: rule.build_compare_key(), reverse=True)")},
+    {"name": "stress-all-list-with-a-superset-test", "expect": "R12.10", "edits": _stress_mutant(
+        "defaults-provider-all-over-a-list", "self.arguments == rule.arguments,", "self.arguments >= rule.arguments,")},
+    {"name": "stress-module-level-signature-helper-compares-sizes", "expect": "R12.10", "edits": _stress_mutant(
+        "defaults-provider-signature-test-in-a-module-level-helper", "first.arguments == second.arguments", "len(first.arguments) == len(second.arguments)")},
+    {"name": "stress-alias-rank-tuple-inverted", "expect": "R12.11", "edits": _stress_mutant(
+        "build-key-alias-rank-by-tuple-index", "(0, 1)[bool(self.alias)]", "(1, 0)[bool(self.alias)]")},
+    {"name": "stress-starred-sizes-before-the-alias-flag", "expect": "R12.11", "edits": _stress_mutant(
+        "build-key-sizes-negated-by-a-starred-generator", "(1 if self.alias else 0, *(-size for size in sizes))", "(*(-size for size in sizes), 1 if self.alias else 0)")},
+    {"name": "stress-property-helper-forgets-build-only", "expect": "R12.10", "edits": _stress_mutant(
+        "defaults-provider-property-and-method-helper", "return not self.build_only and bool(self.defaults)", "return bool(self.defaults)")},
+    {"name": "stress-effective-scheme-helper-ignores-the-secure-flag-for-websockets", "expect": "R12.8", "edits": _stress_mutant(
+        "effective-scheme-in-a-private-method", "return \"wss\" if secure else \"ws\"", "return \"ws\"")},
+    {"name": "stress-guard-clause-host-drops-the-subdomain", "expect": "R12.9", "edits": _stress_mutant(
+        "host-guard-clauses-host-matching-flag-in-a-local", "        if not subdomain:\n            return self.server_name\n", "        if subdomain:\n            return self.server_name\n")},
+]
+
+
+# ---- stress round, batch 3 (logic moved between caller and callee)
+_STRESS3 = {
+    'external-url-assembled-by-a-helper-given-the-normalised-scheme': [
+        ('routing/map.py',
+         '        scheme = f"{url_scheme}:" if url_scheme else ""\n        return f"{scheme}//{host}{self.script_name[:-1]}/{path.lstrip(\'/\')}"\n',
+         '        return self._external_url(url_scheme, host, path)\n\n    def _external_url(self, url_scheme: str | None, host: str, path: str) -> str:\n        scheme = f"{url_scheme}:" if url_scheme else ""\n        return f"{scheme}//{host}{self.script_name[:-1]}/{path.lstrip(\'/\')}"\n'),
+    ],
+    'alias-decision-in-a-static-method-given-rule-and-values': [
+        ('routing/matcher.py',
+         '            if rule.alias and rule.map.redirect_defaults:\n                raise RequestAliasRedirect(result, rule.endpoint)\n\n            return rule, result\n',
+         '            self._check_alias(rule, result)\n            return rule, result\n'),
+        ('routing/matcher.py',
+         '    def match(\n        self, domain: str, path: str, method: str, websocket: bool\n    ) -> tuple[Rule, t.MutableMapping[str, t.Any]]:\n',
+         '    @staticmethod\n    def _check_alias(rule: Rule, matched: t.MutableMapping[str, t.Any]) -> None:\n        if not rule.alias:\n            return\n\n        if rule.map.redirect_defaults:\n            raise RequestAliasRedirect(matched, rule.endpoint)\n\n    def match(\n        self, domain: str, path: str, method: str, websocket: bool\n    ) -> tuple[Rule, t.MutableMapping[str, t.Any]]:\n'),
+    ],
+    'merged-pass-target-chosen-in-a-local-raised-once': [
+        ('routing/matcher.py',
+         '            path = re.sub("/{2,}?", "/", path)\n            try:\n                rv = _match(self._root, [domain, *path.split("/")], [])\n            except SlashRequired:\n                raise RequestPath(f"{path}/") from None\n            if rv is None or rv[0].merge_slashes is False:\n                raise NoMatch(have_match_for, websocket_mismatch)\n            else:\n                raise RequestPath(f"{path}")\n',
+         '            path = _merge_slashes(path)\n            try:\n                rv = _match(self._root, [domain, *path.split("/")], [])\n            except SlashRequired:\n                redirect_path = f"{path}/"\n            else:\n                if rv is None or rv[0].merge_slashes is False:\n                    raise NoMatch(have_match_for, websocket_mismatch)\n                redirect_path = path\n            raise RequestPath(redirect_path)\n'),
+        ('routing/matcher.py',
+         'class SlashRequired(Exception):\n',
+         'def _merge_slashes(path: str) -> str:\n    return re.sub("/{2,}?", "/", path)\n\n\nclass SlashRequired(Exception):\n'),
+    ],
+    'sort-key-function-defined-inside-update': [
+        ('routing/map.py',
+         '            for rules in self._rules_by_endpoint.values():\n                rules.sort(key=lambda x: x.build_compare_key())\n',
+         '            def build_order(rule: Rule) -> tuple[int, int, int]:\n                return rule.build_compare_key()\n\n            for rules in self._rules_by_endpoint.values():\n                rules.sort(key=build_order)\n'),
+    ],
+    'redirect-scheme-through-a-property': [
+        ('routing/map.py',
+         '        scheme = self.url_scheme or "http"\n        host = self.get_host(domain_part)\n',
+         '        scheme = self._redirect_scheme\n        host = self.get_host(domain_part)\n'),
+        ('routing/map.py',
+         '    def get_host(self, domain_part: str | None) -> str:\n',
+         '    @property\n    def _redirect_scheme(self) -> str:\n        if self.url_scheme:\n            return self.url_scheme\n\n        return "http"\n\n    def get_host(self, domain_part: str | None) -> str:\n'),
+    ],
+    'defaults-redirect-built-by-a-helper-given-the-provider-rule': [
+        ('routing/map.py',
+         '            if r.provides_defaults_for(rule) and r.suitable_for(values, method):\n                values.update(r.defaults)  # type: ignore\n                domain_part, path = r.build(values)  # type: ignore\n                return self.make_redirect_url(path, query_args, domain_part=domain_part)\n        return None\n',
+         '            if r.provides_defaults_for(rule) and r.suitable_for(values, method):\n                return self._redirect_to_rule(r, values, query_args)\n        return None\n\n    def _redirect_to_rule(\n        self,\n        rule: Rule,\n        values: t.MutableMapping[str, t.Any],\n        query_args: t.Mapping[str, t.Any] | str,\n    ) -> str:\n        values.update(rule.defaults)  # type: ignore\n        domain_part, path = rule.build(values)  # type: ignore\n        return self.make_redirect_url(path, query_args, domain_part=domain_part)\n'),
+    ],
+    'alias-query-appended-by-a-helper-method': [
+        ('routing/map.py',
+         '        if query_args:\n            url += f"?{self.encode_query_args(query_args)}"\n        assert url != path, "detected invalid alias setting. No canonical URL found"\n        return url\n',
+         '        url = self._with_query(url, query_args)\n        assert url != path, "detected invalid alias setting. No canonical URL found"\n        return url\n\n    def _with_query(self, url: str, query_args: t.Mapping[str, t.Any] | str) -> str:\n        if not query_args:\n            return url\n\n        return f"{url}?{self.encode_query_args(query_args)}"\n'),
+    ],
+    'sort-key-in-a-module-level-methodcaller-constant': [
+        ('routing/map.py', "from pprint import pformat\n", "from operator import methodcaller\nfrom pprint import pformat\n"),
+        ('routing/map.py', "class Map:\n", "_build_order = methodcaller(\"build_compare_key\")\n\n\nclass Map:\n"),
+        ('routing/map.py', _SORT, "                rules.sort(key=_build_order)\n"),
+    ],
+    'scheme-normalisation-in-a-module-level-function': [
+        ('routing/map.py', "class MapAdapter:\n", "def _normalise_scheme(url_scheme, websocket):\n    secure = url_scheme in {\"https\", \"wss\"}\n    if websocket:\n        return \"wss\" if secure else \"ws\"\n    if url_scheme:\n        return \"https\" if secure else \"http\"\n    return url_scheme\n\n\nclass MapAdapter:\n"),
+        ('routing/map.py', _SECURE + "\n        if websocket:\n            force_external = True\n" + _WS_SCHEME + _HTTP_SCHEME,
+         "        url_scheme = _normalise_scheme(url_scheme, websocket)\n        if websocket:\n            force_external = True\n"),
+    ],
+}
+_STRESS.update(_STRESS3)
+TWINS += [{"name": k, "edits": v} for k, v in _STRESS3.items()]
+
+
+MUTANTS += [
+    {"name": "stress-external-url-helper-given-a-swapped-websocket-scheme", "expect": "R12.8", "edits": _STRESS["external-url-assembled-by-a-helper-given-the-normalised-scheme"] + [(M, _WS_SCHEME, "            url_scheme = \"ws\" if secure else \"wss\"\n")]},
+    {"name": "stress-static-alias-check-called-before-the-defaults", "expect": "R12.7", "edits": [
+        (T, _ALIAS_TAIL, "            self._check_alias(rule, result)\n            if rule.defaults:\n                result.update(rule.defaults)\n\n            return rule, result\n"),
+        _STRESS["alias-decision-in-a-static-method-given-rule-and-values"][1]]},
+    {"name": "stress-merged-target-local-chosen-without-a-match", "expect": "R12.5", "edits": _stress_mutant(
+        "merged-pass-target-chosen-in-a-local-raised-once", "                if rv is None or rv[0].merge_slashes is False:\n                    raise NoMatch(have_match_for, websocket_mismatch)\n                redirect_path = path\n", "                redirect_path = path\n")},
+    {"name": "stress-merged-handler-local-names-the-path-without-a-slash", "expect": "R12.6", "edits": _stress_mutant(
+        "merged-pass-target-chosen-in-a-local-raised-once", "                redirect_path = f\"{path}/\"\n", "                redirect_path = f\"{path}\"\n")},
+    {"name": "stress-local-sort-key-function-negates-the-key", "expect": "R12.11", "edits": _stress_mutant(
+        "sort-key-function-defined-inside-update", "                return rule.build_compare_key()\n", "                return tuple(-x for x in rule.build_compare_key())\n")},
+    {"name": "stress-methodcaller-constant-sorted-in-reverse", "expect": "R12.11", "edits": _stress_mutant(
+        "sort-key-in-a-module-level-methodcaller-constant", "rules.sort(key=_build_order)", "rules.sort(key=_build_order, reverse=True)")},
+    {"name": "stress-module-level-scheme-function-forgets-wss", "expect": "R12.8", "edits": _stress_mutant(
+        "scheme-normalisation-in-a-module-level-function", "secure = url_scheme in {\"https\", \"wss\"}", "secure = url_scheme == \"https\"")},
+    {"name": "stress-redirect-scheme-property-always-http", "expect": "R12.8", "edits": _stress_mutant(
+        "redirect-scheme-through-a-property", "            return self.url_scheme\n", "            return \"http\"\n")},
+    {"name": "stress-query-helper-encodes-the-bound-query", "expect": "R12.3", "edits": _stress_mutant(
+        "alias-query-appended-by-a-helper-method", "return f\"{url}?{self.encode_query_args(query_args)}\"", "return f\"{url}?{self.encode_query_args(self.query_args or {})}\"")},
+]
+
+
+# ---- stress round: the fresh authors' refactorings that tripped a rule (as minimal text edits)
+_FRESH = {
+    'fresh-sort-key-hoisted-methodcaller-guard-flipped': [
+        ('routing/map.py',
+         'import warnings\n',
+         'import warnings\nfrom operator import methodcaller\n'),
+        ('routing/map.py',
+         '    from .rules import RuleFactory\n',
+         '    from .rules import RuleFactory\n\n_build_compare_key = methodcaller("build_compare_key")\n'),
+        ('routing/map.py',
+         '            if not self._remap:\n                return\n\n            self._matcher.update()\n            for rules in self._rules_by_endpoint.values():\n                rules.sort(key=lambda x: x.build_compare_key())\n            self._remap = False\n',
+         '            if self._remap:\n                self._matcher.update()\n                for endpoint_rules in self._rules_by_endpoint.values():\n                    endpoint_rules.sort(key=_build_compare_key)\n                self._remap = False\n'),
+        ('routing/rules.py',
+         '        return (1 if self.alias else 0, -len(self.arguments), -len(self.defaults or ()))\n',
+         '        defaults = self.defaults or ()\n        return int(bool(self.alias)), -len(self.arguments), -len(defaults)\n'),
+    ],
+    'fresh-alias-suffix-conditional-expression-defaults-loop-continue': [
+        ('routing/map.py',
+         '            if r.provides_defaults_for(rule) and r.suitable_for(values, method):\n                values.update(r.defaults)  # type: ignore\n                domain_part, path = r.build(values)  # type: ignore\n                return self.make_redirect_url(path, query_args, domain_part=domain_part)\n',
+         '            if not r.provides_defaults_for(rule) or not r.suitable_for(values, method):\n                continue\n            values.update(r.defaults)  # type: ignore\n            domain_part, path = r.build(values)  # type: ignore\n            return self.make_redirect_url(path, query_args, domain_part=domain_part)\n'),
+        ('routing/map.py',
+         '        url = self.build(\n            endpoint, values, method, append_unknown=False, force_external=True\n        )\n        if query_args:\n            url += f"?{self.encode_query_args(query_args)}"\n',
+         '        canonical = self.build(\n            endpoint, values, method, append_unknown=False, force_external=True\n        )\n        suffix = f"?{self.encode_query_args(query_args)}" if query_args else ""\n        url = canonical + suffix\n'),
+    ],
+    'fresh-scheme-split-in-a-module-level-function': [
+        ('routing/map.py',
+         '    from .rules import RuleFactory\n',
+         '    from .rules import RuleFactory\n\n_SECURE_SCHEMES = frozenset({"https", "wss"})\n\n\ndef _normalize_scheme(url_scheme: str | None, websocket: bool) -> str | None:\n    """Pick the scheme to build a URL with. WebSocket routes always get a\n    WebSocket scheme. If bound to a WebSocket, ensure that HTTP routes are\n    built with an HTTP scheme. An empty scheme is kept as is.\n    """\n    secure = url_scheme in _SECURE_SCHEMES\n\n    if websocket:\n        return "wss" if secure else "ws"\n\n    if url_scheme:\n        return "https" if secure else "http"\n\n    return url_scheme\n'),
+        ('routing/map.py',
+         '        # require full URLs). If bound to a WebSocket, ensure that HTTP\n        # routes are built with an HTTP scheme.\n        secure = url_scheme in {"https", "wss"}\n\n        if websocket:\n            force_external = True\n            url_scheme = "wss" if secure else "ws"\n        elif url_scheme:\n            url_scheme = "https" if secure else "http"\n',
+         '        # require full URLs).\n        if websocket:\n            force_external = True\n\n        url_scheme = _normalize_scheme(url_scheme, websocket)\n'),
+    ],
+    'fresh-one-try-spanning-both-walks-merged-flag': [
+        ('routing/matcher.py',
+         '        try:\n            rv = _match(self._root, [domain, *path.split("/")], [])\n        except SlashRequired:\n            raise RequestPath(f"{path}/") from None\n\n        if self.merge_slashes and rv is None:\n            # Try to match again, but with slashes merged\n            path = re.sub("/{2,}?", "/", path)\n            try:\n                rv = _match(self._root, [domain, *path.split("/")], [])\n            except SlashRequired:\n                raise RequestPath(f"{path}/") from None\n',
+         '        merged = False\n\n        try:\n            rv = _match(self._root, [domain, *path.split("/")], [])\n\n            if self.merge_slashes and rv is None:\n                # Try to match again, but with slashes merged\n                merged = True\n                path = re.sub("/{2,}?", "/", path)\n                rv = _match(self._root, [domain, *path.split("/")], [])\n        except SlashRequired:\n            # ``path`` is whichever variant was being matched.\n            raise RequestPath(f"{path}/") from None\n\n        if merged:\n'),
+    ],
+    'fresh-alias-url-parts-list-joined-with-question-mark': [
+        ('routing/map.py',
+         '        url = self.build(\n            endpoint, values, method, append_unknown=False, force_external=True\n        )\n        if query_args:\n            url += f"?{self.encode_query_args(query_args)}"\n',
+         '        parts = [\n            self.build(\n                endpoint, values, method, force_external=True, append_unknown=False\n            )\n        ]\n\n        if query_args:\n            parts.append(self.encode_query_args(query_args))\n\n        url = "?".join(parts)\n'),
+    ],
+    'fresh-netloc-local-by-conditional-expression-percent-formatting': [
+        ('routing/map.py',
+         '            values = {}\n\n',
+         '            values = {}\n\n        if url_scheme is None:\n            url_scheme = self.url_scheme\n\n'),
+        ('routing/map.py',
+         '\n        if url_scheme is None:\n            url_scheme = self.url_scheme\n',
+         '        # The rule\'s path is joined below with exactly one slash.\n        path = path.lstrip("/")\n'),
+        ('routing/map.py',
+         '            return f"{self.script_name.rstrip(\'/\')}/{path.lstrip(\'/\')}"\n\n        scheme = f"{url_scheme}:" if url_scheme else ""\n        return f"{scheme}//{host}{self.script_name[:-1]}/{path.lstrip(\'/\')}"\n',
+         '            return "%s/%s" % (self.script_name.rstrip("/"), path)\n\n        netloc = f"{url_scheme}://{host}" if url_scheme else f"//{host}"\n        return "%s%s/%s" % (netloc, self.script_name[:-1], path)\n'),
+    ],
+    'fresh-match-parts-from-a-private-method-returning-a-pair': [
+        ('routing/map.py',
+         '        domain_part = self.server_name\n\n        if not self.map.host_matching and self.subdomain is not None:\n            domain_part = self.subdomain\n\n        path_part = f"/{path_info.lstrip(\'/\')}" if path_info else ""\n',
+         '        domain_part, path_part = self._get_match_parts(path_info)\n'),
+        ('routing/map.py',
+         '                return rule.endpoint, rv\n',
+         '                return rule.endpoint, rv\n\n    def _get_match_parts(self, path_info: str) -> tuple[str, str]:\n        """The domain part and the normalized path that are handed to the\n        matcher for the given path info.\n\n        :internal:\n        """\n        use_subdomain = not self.map.host_matching and self.subdomain is not None\n        domain_part = self.subdomain if use_subdomain else self.server_name\n        path_part = "/%s" % path_info.lstrip("/") if path_info else ""\n        return domain_part, path_part  # type: ignore[return-value]\n'),
+    ],
+    'fresh-one-handler-for-both-signals-url-chosen-by-isinstance': [
+        ('routing/map.py',
+         '        except RequestPath as e:\n            # safe = https://url.spec.whatwg.org/#url-path-segment-string\n            new_path = quote(e.path_info, safe="!$&\'()*+,/:;=@")\n            raise RequestRedirect(\n                self.make_redirect_url(new_path, query_args)\n            ) from None\n        except RequestAliasRedirect as e:\n            raise RequestRedirect(\n                self.make_alias_redirect_url(\n',
+         '        except (RequestPath, RequestAliasRedirect) as e:\n            # Both are answered with a redirect, only the target differs.\n            if isinstance(e, RequestPath):\n                # safe = https://url.spec.whatwg.org/#url-path-segment-string\n                new_path = quote(e.path_info, safe="!$&\'()*+,/:;=@")\n                redirect_url = self.make_redirect_url(new_path, query_args)\n            else:\n                redirect_url = self.make_alias_redirect_url(\n'),
+        ('routing/map.py',
+         '                )\n            ) from None\n',
+         '                )\n\n            raise RequestRedirect(redirect_url) from None\n'),
+        ('routing/map.py',
+         '            if self.map.redirect_defaults:\n                redirect_url = self.get_default_redirect(rule, method, rv, query_args)\n                if redirect_url is not None:\n                    raise RequestRedirect(redirect_url)\n',
+         '            if (\n                self.map.redirect_defaults\n                and (url := self.get_default_redirect(rule, method, rv, query_args))\n                is not None\n            ):\n                raise RequestRedirect(url)\n'),
+    ],
+    'fresh-rule-lists-slice-assigned-sorted-with-a-local-key-function': [
+        ('routing/map.py',
+         '            self._matcher.update()\n            for rules in self._rules_by_endpoint.values():\n                rules.sort(key=lambda x: x.build_compare_key())\n',
+         '            def build_key(rule: Rule) -> tuple[int, int, int]:\n                return rule.build_compare_key()\n\n            self._matcher.update()\n            for rules in self._rules_by_endpoint.values():\n                # Reorder in place, other code may hold on to the list.\n                rules[:] = sorted(rules, key=build_key)\n'),
+    ],
+}
+_FRESH = {k: v[::-1] for k, v in _FRESH.items()}  # applied bottom-up: a block moved upwards is removed before it is inserted
+TWINS += [{"name": k, "edits": v} for k, v in _FRESH.items()]
+
+
+def _fresh_mutant(twin: str, old: str, new: str) -> list:
+    hits = sum(e[2].count(old) for e in _FRESH[twin])
+    assert hits == 1, (twin, old, hits)
+    return [(rel, o, n.replace(old, new)) for rel, o, n in _FRESH[twin]]
+
+
+MUTANTS += [
+    {"name": "fresh-one-try-merged-path-computed-after-the-second-walk", "expect": "R12.6", "edits": _fresh_mutant(
+        "fresh-one-try-spanning-both-walks-merged-flag",
+        "                path = re.sub(\"/{2,}?\", \"/\", path)\n                rv = _match(self._root, [domain, *path.split(\"/\")], [])\n",
+        "                squeezed = re.sub(\"/{2,}?\", \"/\", path)\n                rv = _match(self._root, [domain, *squeezed.split(\"/\")], [])\n                path = squeezed\n")},
+    {"name": "fresh-parts-list-gets-the-bound-query", "expect": "R12.3", "edits": _fresh_mutant(
+        "fresh-alias-url-parts-list-joined-with-question-mark", "parts.append(self.encode_query_args(query_args))", "parts.append(self.encode_query_args(self.query_args or {}))")},
+    {"name": "fresh-netloc-local-hard-codes-http", "expect": "R12.8", "edits": _fresh_mutant(
+        "fresh-netloc-local-by-conditional-expression-percent-formatting", "netloc = f\"{url_scheme}://{host}\" if url_scheme", "netloc = f\"http://{host}\" if url_scheme")},
+    {"name": "fresh-percent-formatted-url-without-the-lstrip", "expect": "R12.1", "edits": _fresh_mutant(
+        "fresh-netloc-local-by-conditional-expression-percent-formatting", "        path = path.lstrip(\"/\")\n", "        path = path\n")},
+    {"name": "fresh-match-parts-helper-keeps-the-leading-slashes", "expect": "R12.2", "edits": _fresh_mutant(
+        "fresh-match-parts-from-a-private-method-returning-a-pair", "path_part = \"/%s\" % path_info.lstrip(\"/\") if path_info else \"\"", "path_part = \"/%s\" % path_info if path_info else \"\"")},
+    {"name": "fresh-merged-handler-slash-redirect-drops-the-query", "expect": "R12.3", "edits": _fresh_mutant(
+        "fresh-one-handler-for-both-signals-url-chosen-by-isinstance", "redirect_url = self.make_redirect_url(new_path, query_args)", "redirect_url = self.make_redirect_url(new_path)")},
+    {"name": "fresh-sorted-slice-assignment-in-reverse", "expect": "R12.11", "edits": _fresh_mutant(
+        "fresh-rule-lists-slice-assigned-sorted-with-a-local-key-function", "sorted(rules, key=build_key)", "sorted(rules, key=build_key, reverse=True)")},
+    {"name": "fresh-module-level-scheme-function-inverts-the-websocket-pair", "expect": "R12.8", "edits": _fresh_mutant(
+        "fresh-scheme-split-in-a-module-level-function", "\"wss\" if secure else \"ws\"", "\"ws\" if secure else \"wss\"")},
+]
